@@ -1351,6 +1351,51 @@ class Interpreter : public EvaluatorInterface {
     std::vector<int64_t> extract_array_indices(const ASTNode *node);
     std::string extract_array_element_name(const ASTNode *node);
 
+    // Compound assignment to an element, `T op= v`, is parsed as
+    // `T = T' op v`. While such an assignment runs, the index values of its
+    // target T (evaluated once) are kept here for the copy T' (an
+    // AST_ARRAY_REF with reuse_assign_target_indices): T' reads the element
+    // with these values instead of evaluating its index expressions, so that
+    // a side effect in an index (a[f()] += 1) happens once.
+    std::vector<std::pair<const ASTNode *, std::vector<int64_t>>>
+        assign_target_indices_;
+    // The index values for `node` if it is the target copy of the compound
+    // assignment being executed, nullptr otherwise.
+    const std::vector<int64_t> *
+    reused_assign_target_indices(const ASTNode *node) const {
+        if (node && node->reuse_assign_target_indices &&
+            !assign_target_indices_.empty() &&
+            assign_target_indices_.back().first == node) {
+            return &assign_target_indices_.back().second;
+        }
+        return nullptr;
+    }
+    // RAII registration used by the executors of AST_ASSIGN.
+    struct AssignTargetIndicesScope {
+        Interpreter &interpreter;
+        bool active = false;
+        AssignTargetIndicesScope(Interpreter &i, const ASTNode *assign_node,
+                                 const std::vector<int64_t> &indices)
+            : interpreter(i) {
+            const ASTNode *rhs = assign_node ? assign_node->right.get()
+                                             : nullptr;
+            if (rhs && rhs->node_type == ASTNodeType::AST_BINARY_OP &&
+                rhs->left && rhs->left->reuse_assign_target_indices) {
+                interpreter.assign_target_indices_.emplace_back(
+                    rhs->left.get(), indices);
+                active = true;
+            }
+        }
+        ~AssignTargetIndicesScope() {
+            if (active) {
+                interpreter.assign_target_indices_.pop_back();
+            }
+        }
+        AssignTargetIndicesScope(const AssignTargetIndicesScope &) = delete;
+        AssignTargetIndicesScope &
+        operator=(const AssignTargetIndicesScope &) = delete;
+    };
+
     // Priority 3: 変数ポインターから名前を取得するヘルパー
     std::string find_variable_name(const Variable *var);
 
